@@ -174,10 +174,36 @@ def rule_c20(prog, rep):
                     exc = access_path(y)
     rep.broken_if(exc is None, 'the failure flag returned as -1 was not found')
     if exc:
+        def recorder_call(e):
+            """e is a call to a repository function that always returns non-zero and records a message naming file and line
+            (itself or through the message-setting routine), the file/line coming from its body or from the call's arguments"""
+            e = strip(e)
+            if e.get('kind') != 'CallExpr':
+                return None
+            for g in prog.callees(f.unit, e):
+                if getattr(g, 'body', None) is None:
+                    return None
+                rets = [r for r in g.cfg.returns() if children(r.ast)]
+                if not rets or not all(int_value(children(r.ast)[0]) not in (0, None) for r in rets):
+                    return None
+                records = any(y.get('kind') == 'CallExpr' and prog.callee_name(y) in ('_seterrmsg',) for y in walk(g.body)) or \
+                    any(y.get('kind') == 'MemberExpr' and y.get('name') == 'errstr' for y in walk(g.body))
+                text = ' '.join(canon(a) for a in children(e)[1:]) + ' ' + ' '.join(
+                    canon(y) for y in walk(g.body) if y.get('kind') == 'MemberExpr')
+                return records and 'filepath' in text and 'lineno' in text
+            return None
         for x in walk(f.body):
             if x.get('kind') == 'BinaryOperator' and x.get('opcode') == '=' and access_path(children(x)[0]) == exc \
-                    and int_value(children(x)[1]) not in (0, None):
+                    and (int_value(children(x)[1]) not in (0, None) or recorder_call(children(x)[1]) is not None):
                 rep.instance('B3')
+                if recorder_call(children(x)[1]) is not None:
+                    ok = bool(recorder_call(children(x)[1]))
+                    rep.oblige('B3', ok, {'line': x.get('_line'), 'recorder': canon(children(x)[1])[:50]})
+                    if not ok:
+                        rep.violation('B3', f, x.get('_line'), 'fail:%s' % x.get('_line'),
+                                      'the parser is made to fail at line %s through a helper that does not record a message with file and line'
+                                      % x.get('_line'))
+                    continue
                 ok = False
                 if x.get('_macro') and x.get('_macro') != 'true':
                     # inside a macro expansion: the expansion must call _seterrmsg with filepath and lineno
